@@ -16,7 +16,9 @@ def schedules(rng, n, exhaustive_upto):
             cuts = [str(i + 1) for i in range(n - 1) if mask >> i & 1]
             out.append(",".join(cuts) if cuts else "all")
         return out
-    out = ["all", "b1", "h", "b1/p1", "h/p3"]
+    out = ["all", "h", "h/p3", "all/p1"] + (["b1", "b1/p1"] if n <= 600 else [])
+    if n > 4000:
+        out += ["%d" % c for c in (4095, 4096, 4100, n - 3, n - 1) if 0 < c < n] + ["10,%d" % (n - 2)]
     for _ in range(4):
         k = rng.randrange(1, min(n, 6))
         cuts = sorted(set(rng.randrange(1, n) for _ in range(k)))
@@ -38,6 +40,16 @@ def gen_cases(rng, n, runner, exhaustive_upto):
         if o.startswith("W "):
             hxs = o.split(" ")[1]
             valids.append((pk, {"S": 12, "L": 15, "T": 14, "M": 13}[v[0]], bytes.fromhex(hxs) if hxs != "-" else b"", v[0] == "S"))
+    # payloads on both sides of the 4096-byte threshold of the async length-prefixed reads, followed by more fields
+    big = []
+    for pk in PKS:
+        for n in (4095, 4096, 4097, 5000, 9000):
+            big.append((pk, "S2 f1 s%s f2 i7" % ("ab" * n)))
+            big.append((pk, "L11,2 s%s s6162" % ("cd" * n)))
+    bouts = core.run_lines(runner, ["rt %s contig - 1 %s" % (pk, v) for pk, v in big])
+    for (pk, v), o in zip(big, bouts):
+        if o.startswith("W "):
+            valids.append((pk, {"S": 12, "L": 15}[v[0]], bytes.fromhex(o.split(" ")[1]), v[0] == "S"))
     pairs = {}
     for pk, code, b, _ in valids:
         inputs = [(b, "valid")]
@@ -60,8 +72,10 @@ def gen_cases(rng, n, runner, exhaustive_upto):
         pairs.setdefault(("rd %s %d %s" % (pk, code, tg.hx(m)), "ard %s %d %s %s" % (pk, code, tg.hx(m), rng.choice(["all", "b1", "b1/p1"]))), kind)
     items = [(a, b, k) for (a, b), k in pairs.items()]
     if len(items) > n:
-        rng.shuffle(items)
-        items = items[:n]
+        keep = [it for it in items if len(it[0]) > 8000]
+        rest = [it for it in items if len(it[0]) <= 8000]
+        rng.shuffle(rest)
+        items = keep + rest[:max(0, n - len(keep))]
     return items
 
 
